@@ -224,7 +224,7 @@ def make_instance(rng, style):
             if any(not any(r) for r in m["avail"]) or not gen.magnitude_ok(m):
                 continue
             m["plan"] = 1
-        ncuts = rng.choice([1, 2, 2, 3])
+        ncuts = rng.choice([2, 2, 3])            # >= 2 different cut-offs: call histories on one object need them
         m["cuts"] = sorted(rng.sample(range(0, m["N"] + 2), ncuts))
         return m
 
@@ -363,23 +363,29 @@ def functions(m, L, rep):
     from msdm.core.distributions import DictDistribution, DeterministicDistribution, UniformDistribution
     N, K, PD, ID = m["N"], m["K"], m["PD"], m["ID"]
     kind = rep["dist"]
+    # kinds of the values the callables answer with: python bool / float, or numpy scalars, or 0/1 ints
+    # (truthy non-bool answers of is_absorbing are as good as True; numpy floats are numbers like any other)
+    vk = rep["seed"] % 3
+    num = (lambda x: np.float64(x)) if vk == 1 else float
+    absval = {0: bool, 1: np.bool_, 2: int}[vk]
+    rew = {0: float, 1: np.float64, 2: (lambda x: np.int64(x))}[vk]
 
     def mk(pairs):
         nz = [(e, p) for e, p in pairs if p > 0]
         if len(nz) < len(pairs):                       # explicit zero entries need a dictionary
-            return DictDistribution({e: float(p) for e, p in pairs})
+            return DictDistribution({e: num(float(p)) for e, p in pairs})
         if kind == "det" and len(nz) == 1:
             return DeterministicDistribution(nz[0][0])
         if kind == "uniform" and len({p for _, p in nz}) == 1:
             return UniformDistribution([e for e, _ in nz])
-        return DictDistribution({e: float(p) for e, p in nz})
+        return DictDistribution({e: num(float(p)) for e, p in nz})
 
     def nsd(s, a):
         i, j = L.sidx(s), L.aidx(a)
         return mk([(L.s[t], F(m["P"][i][j][t], PD)) for t in range(N) if m["P"][i][j][t] > 0 or m["Z"][i][j][t]])
 
     def reward(s, a, ns):
-        return float(m["R"][L.sidx(s)][L.aidx(a)][L.sidx(ns)])
+        return rew(m["R"][L.sidx(s)][L.aidx(a)][L.sidx(ns)])
 
     def actions(s):
         return tuple(L.a[a] for a in range(K) if m["avail"][L.sidx(s)][a])
@@ -388,7 +394,7 @@ def functions(m, L, rep):
         return mk([(L.s[t], F(m["p0"][t], ID)) for t in range(N) if m["p0"][t] > 0 or m["Z0"][t]])
 
     def is_abs(s):
-        return bool(m["abs"][L.sidx(s)])
+        return absval(m["abs"][L.sidx(s)])
     return nsd, reward, actions, isd, is_abs
 
 
@@ -522,6 +528,26 @@ def observe(mdp, L, m, *, tabular=True):
             o["cuts"][str(c)] = sset(r)
         except Exception as e:                            # noqa: BLE001
             o["err"][f"reachable_states({c})"] = _err(e)
+        o["n"] += 1
+    # call history on the SAME object: the result of every call depends on its own argument only, whatever was
+    # asked before and however the argument is passed (keyword, positional, default)
+    o["calls"] = []
+    cuts = list(m["cuts"])
+    hist = [("kw", c) for c in cuts] + [("noarg", INF)] + [("pos", c) for c in reversed(cuts)] \
+        + [("kw", c) for c in reversed(cuts)] + [("kwinf", INF), ("pos", cuts[0]), ("noarg", INF)]
+    for form, c in hist:
+        try:
+            if form == "kw":
+                r = mdp.reachable_states(max_states=c)
+            elif form == "pos":
+                r = mdp.reachable_states(c)
+            elif form == "kwinf":
+                r = mdp.reachable_states(max_states=float("inf"))
+            else:
+                r = mdp.reachable_states()
+            o["calls"].append([form, c, sset(r)])
+        except Exception as e:                            # noqa: BLE001
+            o["calls"].append([form, c, _err(e)])
         o["n"] += 1
     o["discount"] = float(mdp.discount_rate)
     # functional interface, point by point
@@ -818,26 +844,41 @@ class Judge:
                 continue
             if str(c) not in o["cuts"]:
                 continue
-            got = frozenset(o["cuts"][str(c)])
-            s0 = {s for s in range(self.N) if m["p0"][s] > 0}
-            if got in self.cuts[k]:
-                continue
-            # not one of the results the cut-off admits (any pop order): wrong, whatever the reason
-            if not (s0 <= got):
-                why = "initial support missing"
-            elif not (got <= self.reach):
-                why = "contains states that are not reachable"
-            elif len(self.reach) <= c and got != self.reach:
-                why = "cut although the limit was not reached"
-            elif len(got) < min(c, len(self.reach)):
-                why = "stopped before the limit was reached"
-            elif len(got) > c:
-                why = "kept expanding after max_states states were known"
+            self.cut_result(name, site, k, c, frozenset(o["cuts"][str(c)]), "first call")
+        # the call history on the same object (spec: every result is admissible for ITS OWN argument)
+        for n_call, (form, c, got) in enumerate(o.get("calls", []), start=1):
+            how = {"kw": f"max_states={c} by keyword", "pos": f"max_states={c} positionally", "kwinf": "max_states=inf by keyword",
+                   "noarg": "no argument"}[form] + f", call {n_call} of the history on one object"
+            if isinstance(got, str):
+                self.fail(j(site, "reachable_states"), "call-history-error", f"{how}: raised {got}", name)
+            elif c == INF:
+                if set(got) != self.reach:
+                    self.fail(j(site, "reachable_states"), "call-history",
+                              f"{how}: returned {sorted(got)} but the reachable set is {sorted(self.reach)}", name)
             else:
-                why = "no order of expanding non-absorbing states produces this set"
-            self.fail(j(site, "reachable_states"), "max_states-cutoff",
-                      f"max_states={c}: returned {sorted(got)}: {why} (admissible results "
-                      f"{sorted(map(sorted, self.cuts[k]))})", name)
+                self.cut_result(name, site, m["cuts"].index(c), c, frozenset(got), how, shape="call-history")
+
+    def cut_result(self, name, site, k, c, got, how, shape="max_states-cutoff"):
+        m = self.m
+        s0 = {s for s in range(self.N) if m["p0"][s] > 0}
+        if got in self.cuts[k]:
+            return
+        # not one of the results the cut-off admits (any pop order): wrong, whatever the reason
+        if not (s0 <= got):
+            why = "initial support missing"
+        elif not (got <= self.reach):
+            why = "contains states that are not reachable"
+        elif len(self.reach) <= c and got != self.reach:
+            why = "cut although the limit was not reached"
+        elif len(got) < min(c, len(self.reach)):
+            why = "stopped before the limit was reached"
+        elif len(got) > c:
+            why = "kept expanding after max_states states were known"
+        else:
+            why = "no order of expanding non-absorbing states produces this set"
+        self.fail(j(site, "reachable_states"), shape,
+                  f"max_states={c} ({how}): returned {sorted(got)}: {why} (admissible results "
+                  f"{sorted(map(sorted, self.cuts[k]))})", name)
 
     # ---- functional interface of wrappers (QuickMDP, non tabular)
     def functional(self, name, o, site):
@@ -1100,7 +1141,9 @@ def run(ctx):
     ctx.rule = ("random members of the C06 family (1-4 ordinary + 0-2 explicitly absorbing states with ghost dynamics, dead ends, "
                 "implicitly absorbing states, absorbing initial states, zero-probability entries inside and outside the list, "
                 "rare-probability rows / initial distributions with entries of 1e-9 and 1e-8 over denominators 10^8 / 10^9, "
-                "explicit shuffled or inferred lists, max_states cut-offs 0..N+1) x label kinds x distribution classes x "
+                "explicit shuffled or inferred lists, >= 2 max_states cut-offs 0..N+1 asked in a call history on one object "
+                "(keyword / positional / default, repeated and reversed)) x label kinds x distribution classes x answers of the "
+                "callables as python / numpy / int values x "
                 "constructors; non-trivial = >= 3 listed states, some listed state with an unavailable action, and either an "
                 "unreachable state or a listed absorbing state with outgoing ghost dynamics")
     ctx.assumptions = ["TLC evaluates the TLA+ views correctly (cross-checked against an independent Python oracle on every 3rd case; "
